@@ -20,6 +20,8 @@ def scope(b):
 
 def run(ctx, rep):
     facts = ctx.facts()
+    import fixtures
+    fixtures.run_controls(rep, ['E2'], lambda: ctx.reload())
     rep.rule('E8b', e8b_matrix.__doc__.strip().split('\n')[0])
     e8b_matrix.check_split_combine(facts, rep)
     e8b_matrix.check_trans_order(facts, rep)
